@@ -145,6 +145,8 @@ def c12_conv(rec, case):
                          apertures=None if not c['with_ap'] else np.logspace(1, 4, n_ap) * u.au,
                          flux=10. ** rng.uniform(-2, 2, (n_m, n_ap if c['with_ap'] else 1)) * u.mJy,
                          error=10. ** rng.uniform(-3, 1, (n_m, n_ap if c['with_ap'] else 1)) * u.mJy)
+    if c.get('mixed_units'):
+        cf.flux = cf.flux.to(u.Jy)          # every column is stored with its own unit
     with pkg.scratch() as d:
         fn = os.path.join(d, 'cf.fits')
         try:
@@ -153,7 +155,7 @@ def c12_conv(rec, case):
         except Exception as e:
             rec.fail('conv_roundtrip_crash', 'ConvolvedFluxes write/read raised %s: %s' % (type(e).__name__, e), case)
             return False
-    ok = rec.expect(close(r.flux.to(u.mJy).value, cf.flux.value, 2e-6) and close(r.error.to(u.mJy).value, cf.error.value, 2e-6), 'conv_cells', 'convolved flux cells changed', case)
+    ok = rec.expect(close(r.flux.to(u.mJy).value, cf.flux.to(u.mJy).value, 2e-6) and close(r.error.to(u.mJy).value, cf.error.to(u.mJy).value, 2e-6), 'conv_cells', 'convolved flux cells changed', case)
     ok &= rec.expect([str(x).strip() for x in r.model_names] == list(cf.model_names), 'conv_names', 'model names changed', case)
     ok &= rec.expect(close(r.central_wavelength.to(u.micron).value, 3.6, 1e-6), 'conv_wav', 'central wavelength changed', case)
     if c['with_ap']:
@@ -180,7 +182,7 @@ def run_c12(tier, seed):
         c12_cube(rec, case)
         rec.case(key=('cube', case['desc'], case['unit'], case['with_ap'], case['with_unc'], case['memmap']), nontrivial=True, sample=case if t < 1 else None)
     for t in range(max(4, n // 8)):
-        case = dict(seed=seed, tag='c12-conv', pseed=int(rng.integers(1, 10 ** 6)), n_models=int(rng.integers(1, 7)), n_ap=int(rng.integers(1, 6)), with_ap=bool(t % 2))
+        case = dict(seed=seed, tag='c12-conv', pseed=int(rng.integers(1, 10 ** 6)), n_models=int(rng.integers(1, 7)), n_ap=int(rng.integers(1, 6)), with_ap=bool(t % 2), mixed_units=bool(t % 3 == 1))
         c12_conv(rec, case)
         rec.case(key=('conv', case['with_ap'], case['n_ap']), nontrivial=True)
     return rec, REPLAY
@@ -611,7 +613,7 @@ def c20_layout(rec, case):
     except Exception as e:
         outcome = 'error'
     n = c['n']
-    flags_ok = all(f in ('0', '1', '2', '3', '4', '9') for f in cols[3:3 + max((L - 3) // 3, 0)]) if L >= 3 else True
+    flags_ok = all(f in ('0', '1', '2', '3', '4', '9') for f in cols[3:3 + max((L - 3) // 3, 0)]) if L >= 3 else True      # (a flag column holds one of these integers: '2.5' or '1.0' is not a flag)
     if L < 3:
         return rec.expect(outcome == 'eof', 'short_line_ends_input', 'a line with %d columns gave %s, expected end of input' % (L, outcome), case)
     if L % 3 != 0:
@@ -667,7 +669,7 @@ def run_c20(tier, seed):
             case = dict(seed=seed, tag='c20-layout', n=n, cols=cols)
             c20_layout(rec, case)
             rec.case(key=('layout', n, L), nontrivial=L >= 3, sample=dict(n=n, columns=L) if (n, L) == (2, 9) else None)
-        for bad in ('5', '6', '7', '8', '-1', '10'):
+        for bad in ('5', '6', '7', '8', '-1', '10', '2.5', '1.0', '9.9', '0.5'):
             if n == 0:
                 continue
             cols = ['nm', '0', '0'] + ['1'] * n + ['1.0', '0.1'] * n
@@ -684,7 +686,7 @@ def run_c20(tier, seed):
         for j in range(n):
             if rng.uniform() < 0.15:
                 flux[j], err[j] = -999., -999.
-        case = dict(seed=seed, tag='c20-roundtrip', name=name, valid=rng.choice([0, 1, 2, 3, 4, 9], size=n), flux=flux, error=err, x=float(rng.uniform(0, 360)), y=float(rng.uniform(-90, 90)))
+        case = dict(seed=seed, tag='c20-roundtrip', name=name, valid=rng.choice([0, 1, 2, 3, 4, 9], size=n), flux=flux, error=err, x=float(rng.uniform(0, 360)) if t % 3 else float(np.round(rng.uniform(-4000, 4000), 3)), y=float(rng.uniform(-90, 90)) if t % 3 else float(np.round(rng.uniform(-4000, 4000), 3)))
         case = jsonable(case)
         c20_roundtrip(rec, case)
         rec.case(key=('rt', n, ln), nontrivial=n > 0, sample=dict(n=n, name=name) if t < 2 else None)
